@@ -44,7 +44,6 @@ Print Assumptions C18_ids_not_reused.
    after a restart: finish events are re-created set for done jobs) *)
 Theorem C18_wait_immediate : forall s c i ser j,
   is_idle c s = true -> id_lookup (s_ids s) i = Some ser -> getjob (s_jobs s) ser = Some j -> j_done j = true ->
-  done_pending ser (s_hub s) = false ->     (* no finish notification of this job still queued in the hub; after a restart s_hub = [] *)
   j_drop j = false ->                       (* nobody called rpc_qdrop on it *)
   step s (Wait c i) = (s, [OReleased c j]).
 Proof. exact wait_done_immediate. Qed.
